@@ -253,9 +253,13 @@ def o193(ctx):
         ctx.finding(q, c, "the distance recorded for the former particle must be the one returned together with the chosen next particle", c, m)
 
 
-def obligations():
+def _obligations():
     return [
         Obligation("O19.1", "get_nn_dist: radius = max_distance, sorted, active filter, strict > min_distance, same masks, element 0", o191, floor=5),
         Obligation("O19.2", "add_chain_suffix: order offset keyed by the class the appended chain receives (both paths)", o192, floor=6),
         Obligation("O19.3", "trace_chains: per-tomogram state, flags cleared on append, guards, counter discipline, forward search wiring", o193, floor=12),
     ]
+
+
+def obligations():
+    return _obligations() + [effects_obligation("C19")]
